@@ -265,17 +265,13 @@ impl<'a> RleDecoder<'a> {
 // ---------------------------------------------------------------------------------------------
 // DecoderV2: the usize var-int / length-prefixed buffer readers over (&[u8], &mut usize), and the delete-set clock codec
 // ---------------------------------------------------------------------------------------------
-/// SLICED stand-in for `DecoderV2` (yrs/src/updates/decoder.rs): only the fields read_ds_clock / read_ds_len touch
-pub struct DecoderV2<'a> {
-    pub cursor: Cursor<'a>,
-    pub ds_curr_val: u32,
-    pub string_decoder: StringDecoder<'a>,
-}
+// the REAL struct (all twelve fields, unchanged)
+/*@extract yrs/src/updates/decoder.rs | - | struct DecoderV2 @*/
 
-/// OPAQUE stand-in for `StringDecoder` (str slicing / `chars()` are not ingestible; `StringDecoder::new` validates its column with
-/// `std::str::from_utf8(..).map_err(|_| Error::UnexpectedValue)?` since /repo 6f5f4d8, before: unsafe from_utf8_unchecked): `read_str`
-/// is a trusted stand-in WITHOUT a functional contract — all that is used is that it cannot touch the decoder's cursor
-#[verifier::external_body] pub struct StringDecoder<'a> { opaque: &'a str }
+// the REAL struct.  `StringDecoder::new` is the real body (v2new.rs, over the trusted std stand-in `vx_from_utf8`); `read_str`
+// (str slicing / `chars()` are not ingestible) stays a trusted stand-in WITHOUT a functional contract — all that is used is that
+// it cannot touch the decoder's cursor
+/*@extract yrs/src/updates/decoder.rs | - | struct StringDecoder @*/
 
 impl<'a> StringDecoder<'a> {
     #[verifier::external_body] pub fn read_str(&mut self) -> (res: Result<&'a str, Error>)
@@ -380,6 +376,28 @@ pub open spec fn dec_buf_v2(s: Seq<u8>) -> Option<(Seq<u8>, nat)> {
     }
 }
 
+/// WHY `read_buf` fails on `s` (meaningful when dec_buf_v2(s) is None): the length var-int is truncated / too long, or the
+/// announced payload length `n` does not fit into what is left
+pub enum SecErr {
+    VarInt,
+    Short(usize),
+}
+
+pub open spec fn buf_v2_err(s: Seq<u8>) -> SecErr {
+    match dec_usize(s) {
+        None => SecErr::VarInt,
+        Some((n, k)) => SecErr::Short(n),
+    }
+}
+
+/// the real `Error` value reported for a `SecErr`
+pub open spec fn err_of_sec(e: Error, k: SecErr) -> bool {
+    match k {
+        SecErr::VarInt => e is InvalidVarInt,
+        SecErr::Short(n) => e is EndOfBuffer && e->EndOfBuffer_0 == n,
+    }
+}
+
 /// C09: `read_buf` inverts `write_buf` (length as unsigned var-int, then the bytes) for every buffer
 pub proof fn lemma_dec_enc_buf_v2(b: Seq<u8>, tail: Seq<u8>)
     requires
@@ -418,7 +436,8 @@ impl<'a> DecoderV2<'a> {
         ensures
             match dec_usize(tail_from(buf@, *old(idx) as int)) {
                 Some((v, k)) => res is Ok && res->Ok_0 == v && *final(idx) == *old(idx) + k && *final(idx) <= buf@.len(),
-                None => res is Err && *old(idx) <= *final(idx) && (*final(idx) <= buf@.len() || *final(idx) == *old(idx)),
+                None => res is Err && *old(idx) <= *final(idx) && (*final(idx) <= buf@.len() || *final(idx) == *old(idx))
+                    && res->Err_0 is InvalidVarInt,
             },
     @start
         let ghost i0 = *idx as int;
@@ -446,7 +465,8 @@ impl<'a> DecoderV2<'a> {
         ensures
             match dec_buf_v2(tail_from(buf@, *old(idx) as int)) {
                 Some((b, k)) => res is Ok && res->Ok_0@ == b && *final(idx) == *old(idx) + k && *final(idx) <= buf@.len(),
-                None => res is Err && *old(idx) <= *final(idx) && (*final(idx) <= buf@.len() || *final(idx) == *old(idx)),
+                None => res is Err && *old(idx) <= *final(idx) && (*final(idx) <= buf@.len() || *final(idx) == *old(idx))
+                    && err_of_sec(res->Err_0, buf_v2_err(tail_from(buf@, *old(idx) as int))),
             },
     @start
         let ghost i0 = *idx as int;
@@ -521,11 +541,13 @@ impl<'a> Read for DecoderV1<'a> {
 }
 
 impl<'a> Read for DecoderV2<'a> {
-    open spec fn rest(&self) -> Seq<u8> {
+    // (closed: the real struct has private fields, which makes it opaque to an `open` spec function; all of this unit is one
+    // module, so the bodies are visible to every proof in it all the same)
+    closed spec fn rest(&self) -> Seq<u8> {
         self.cursor.rest()
     }
 
-    open spec fn wf(&self) -> bool {
+    closed spec fn wf(&self) -> bool {
         self.cursor.wf()
     }
 
